@@ -301,6 +301,7 @@ def run(ctx):
     _lost_update_rule(ctx, repo)
     _tracker_reset_rule(ctx, repo)
     _sorted_extremes_rule(ctx, repo)
+    _placement_bookkeeping_rule(ctx, repo)
 
 
 def _recursion_forwarding(ctx, repo):
@@ -880,3 +881,47 @@ def _sorted_extremes_rule(ctx, repo):
                        'descending order two operations that share a qubit are classed as disjoint and swapped without a commutation check', m.rel, c.lineno)
     if n == 0:
         raise AnalysisError('C06.m: no last-vs-first comparison left in the transformer packages')
+
+
+def _placement_bookkeeping_rule(ctx, repo):
+    """C06.n - stratify: the time index recorded for an operation's qubits / keys is the index the operation is actually placed at."""
+    ctx.decided.append('C06.n stratified_circuit: the dictionaries consulted by get_earliest_accommodating_moment_index are updated with the index at which the operation is placed, in '
+                       'the same loop iteration as the placement (not with a preliminary index that a later step may still move)')
+    ctx.rule('C06.n', 'recorded position == placed position: in _stratify_circuit every store into one of the dictionaries passed to get_earliest_accommodating_moment_index sits in the '
+             'same for-loop as the statement <moments>[i].append(op) and stores that same i', floor=3, style='MPT')
+    m = repo.module('cirq-core/cirq/transformers/stratify.py')
+    fn = m.defs.get('_stratify_circuit')
+    if fn is None:
+        raise AnalysisError('_stratify_circuit vanished')
+    calls = [c for c in ast.walk(fn) if isinstance(c, ast.Call) and (call_name(c) or '').split('.')[-1] == 'get_earliest_accommodating_moment_index']
+    if not calls:
+        raise AnalysisError('_stratify_circuit: get_earliest_accommodating_moment_index call vanished')
+    dicts = [a.id for a in calls[0].args[1:] if isinstance(a, ast.Name)]
+    par = m.parents()
+
+    def loop_of(node):
+        while node in par:
+            node = par[node]
+            if isinstance(node, ast.For):
+                return node
+        return None
+    place = [c for c in ast.walk(fn) if isinstance(c, ast.Call) and isinstance(c.func, ast.Attribute) and c.func.attr == 'append' and isinstance(c.func.value, ast.Subscript)
+             and isinstance(c.func.value.slice, ast.Name)]
+    if len(place) != 1 or len(dicts) < 3:
+        raise AnalysisError(f'_stratify_circuit: placement statement / bookkeeping dictionaries not identified ({len(place)}, {dicts})')
+    pl = place[0]
+    idx = pl.func.value.slice.id
+    pl_loop = loop_of(pl)
+    for d in dicts:
+        stores = [s for s in ast.walk(fn) if isinstance(s, ast.Assign) and isinstance(s.targets[0], ast.Subscript) and isinstance(s.targets[0].value, ast.Name) and s.targets[0].value.id == d]
+        if not stores:
+            raise AnalysisError(f'_stratify_circuit: no store into {d}')
+        for k, s in enumerate(stores, 1):
+            lp = loop_of(s)
+            outer = lp
+            while outer is not None and outer is not pl_loop:
+                outer = loop_of(outer)
+            ok = outer is pl_loop and isinstance(s.value, ast.Name) and s.value.id == idx
+            ctx.ob('C06.n', f'cirq.transformers.stratify._stratify_circuit:{d}#{k}', ok, '' if ok else
+                   f'`{ast.unparse(s)}` (line {s.lineno}) is not made where the operation is placed (`{ast.unparse(pl)}`, line {pl.lineno}): the index recorded for later conflict checks '
+                   'can differ from the moment the operation ends up in, so a later operation is scheduled before one it must follow', m.rel, s.lineno)
